@@ -238,6 +238,19 @@ func init() {
 				parseJ(" " + v + "\n")
 			}
 		}
+		if d.Mine(2) {
+			// a refused document with bytes after its first value, then an ordinary one: nothing of
+			// the former may reach the latter
+			for _, pair := range [][2]string{{"false 12", "7"}, {`"1kB" 9`, "3"}, {"null 4", `{"value":2,"unit":"B"}`}, {"true{", `{"value":5,"unit":"kB"}`}, {"1 2", "4"}, {`{"value":1,"unit":"B"} 8`, "6"}} {
+				for _, rule := range []int{6, 4, 2} {
+					for _, in := range pair[:] {
+						doc, wf := abstractDoc([]byte(in))
+						d.Do(Ev{"op": "size.parse", "in": B(in), "rule": rule, "T": []string{"s", "b"}[len(in)%2], "doc": doc, "wf": wf})
+					}
+				}
+			}
+			d.S.Boundary()
+		}
 		for ui, u := range allUnits {
 			if !d.Mine(ui + 3) {
 				continue
